@@ -18,6 +18,7 @@ func init() {
 			"R15.2 inputs: both parameters flow into the digest; at the call site the arguments are exactly the final labels (the very value given to scrape.NewTarget as the target's labels and shipped as ShardTarget.Labels' source) and the String() of that target's URL; the label slice handed to label population comes from labels.New (sorted, de-duplicated by the library); " +
 			"R15.3 collapse: a target is appended only under 'hash not yet seen' and the hash is marked seen on that path; the by-hash view is keyed by ShardTarget.Hash; " +
 			"R15.4 single definition: Target.Hash is written by the group translator only (JSON decoding aside). " +
+			"R15.5 the proxy handler reads the hash parameter by exactly one strconv.ParseUint(text, 10, 64) (the writer renders decimal: C02 R2.4). " +
 			"Not decided: collision freedom and sensitivity (properties of the hash functions).",
 		Assumptions: []string{"go/types and go/ssa are correct", "the allow-listed standard-library and Prometheus label functions are deterministic across processes (reviewed: fnv, sort, fmt, labels.Hash = xxhash over sorted labels)"}})
 }
@@ -59,6 +60,46 @@ func runC15(p *engine.Prog, r *engine.Report) {
 				hashCall, translator = call, fn
 			}
 		}
+	}
+	// ---- R15.5 the hash travels to the proxy as decimal text and is read back by one decimal parse
+	{
+		r.Min("R15.5-hash-text", 1)
+		var parses, probs []string
+		handler := p.SSAFunc(p.Method(pkgSide, "Proxy", "ServeHTTP"))
+		for _, fn := range p.Funcs {
+			// the proxy's handler (and its closures)
+			in := false
+			for g := fn; g != nil; g = g.Parent() {
+				if g == handler {
+					in = true
+				}
+			}
+			if !in {
+				continue
+			}
+			for _, in := range allInstrs(fn) {
+				call, ok := in.(*ssa.Call)
+				if !ok || !engine.CalleeIs(call.Common(), "strconv", "", "ParseUint") || len(call.Call.Args) != 3 {
+					continue
+				}
+				parses = append(parses, engine.FuncName(fn)+" ("+p.Rel(call.Pos())+")")
+				b, okb := call.Call.Args[1].(*ssa.Const)
+				if !okb || b.Value == nil || b.Value.ExactString() != "10" {
+					probs = append(probs, "parse at "+p.Rel(call.Pos())+" is not base 10")
+				}
+				sz, oks := call.Call.Args[2].(*ssa.Const)
+				if !oks || sz.Value == nil || sz.Value.ExactString() != "64" {
+					probs = append(probs, "parse at "+p.Rel(call.Pos())+" is not 64 bit")
+				}
+			}
+		}
+		if len(parses) > 1 {
+			probs = append(probs, fmt.Sprintf("%d parses of the hash text in the proxy handler: a text with two readings identifies two different targets", len(parses)))
+		}
+		if len(parses) == 0 {
+			probs = append(probs, "no decimal parse of the hash parameter found")
+		}
+		r.Check(len(probs) == 0, "R15.5-hash-text", "reading the hash parameter", "the proxy handler's parse of the hash parameter", "exactly one strconv.ParseUint(text, 10, 64)", strings.Join(append(probs, parses...), "; "))
 	}
 	r.Check(nW == 1 && hashCall != nil, "R15.4-single-definition", "writers of Target.Hash", "program-wide who-may-write table", "exactly one writer: the group translator storing the hash function's result", strings.Join(writers, "; "))
 	if hashCall == nil {
